@@ -1,284 +1,346 @@
-"""C31 gossipsub RPC size limits are applied per frame — order / origin of the size operand (K3/K5), limits (K9), guards (K1), configuration plumbing (K5)."""
+"""C31 gossipsub RPC size limits are applied per frame — order / origin of the size operand (K3/K5), limits (K9), guards (K1), configuration plumbing by value flow (K5)."""
 import re
 
-from .. import lib, mir
-from ..mir import render
+from .. import lib, lib_gs2, mir
+from ..lib_gs2 import Canon, rel_pred, var_pred, bool_pred, const_pred, result_edges
+from ..mir import render, strip_generics
 
-EXPLANATION = ("validate_rpc_limits: the length compared with max_message_size is taken from `buf` only after consume_message_prefix "
-               "returned true (so it is the length of exactly one frame, not of the read buffer) and before the field walk mutates `buf`; "
-               "over-limit => Err on every path; an incomplete frame yields Ok without any limit verdict; publish_count starts at 0, is "
-               "incremented by one exactly in the tag-2 arm and the error is raised only on publish_count > max_publish_messages; "
-               "control_size accumulates (field_start.len() - buf.len()) exactly in the tag 1|3 arm, error only on control_size > "
-               "max_control_message_size; every `?` failure of the wire walk is propagated; the function reports success only when the "
-               "frame is exhausted. consume_message_prefix narrows the buffer to remaining[..message_length] only when remaining.len() >= "
-               "message_length. GossipsubCodec::decode: validate_rpc_limits precedes the prost decode, receives src and the codec's own "
-               "three limits in the right positions; `need more bytes` (Ok(None)) is only returned after the inner prost_codec decoder, "
-               "whose announced-length guard (`message_length > max` => Err) uses the same global_max_transmit_size, has been consulted. "
-               "GossipsubCodec::new / upgrade_inbound / upgrade_outbound / ConfigBuilder setters route each configured limit to the "
-               "parameter of the same meaning. Per-topic limits: a message is surfaced as valid only if it is not larger than its topic's "
-               "max_transmit_size.")
+EXPLANATION = ("validate_rpc_limits(buf, max_size, max_publish, max_control) — parameters by position, locals by role: the length compared "
+               "with parameter 2 is taken from `buf` only after consume_message_prefix reported a complete frame (so it is the length of "
+               "exactly one frame, not of the read buffer) and before the field walk shrinks `buf`; the relation is len > max (a frame of "
+               "exactly max is accepted); over-limit => Err; an incomplete frame yields Ok without any limit verdict; the counter compared "
+               "with parameter 3 starts at 0, is incremented by one exactly once for every field with tag 2 and raises the error only when "
+               "it is > max; the accumulator compared with parameter 4 adds (snapshot of buf before the tag).len() - buf.len() exactly once "
+               "for every field with tag 1 or 3, error only when > max; other tags continue without a verdict; every failure of the wire "
+               "walk is propagated (`?` or match); success only when the frame is exhausted. consume_message_prefix narrows the buffer to "
+               "remaining[..message_length] only when remaining.len() >= message_length. GossipsubCodec::decode: validate_rpc_limits "
+               "precedes the prost decode of the same buffer; its three limits are, by value flow through GossipsubCodec::new, the upgrade "
+               "functions and the ConfigBuilder setters, the configured max_transmit_size / max_publish_messages / max_control_message_size; "
+               "`need more bytes` (Ok(None)) is only returned after the inner prost_codec decoder, built with the same max_transmit_size and "
+               "rejecting an announced length > max, has been consulted. A message is surfaced as valid only if it is not larger than its "
+               "topic's max_transmit_size.")
 ASSUMPTIONS = ["prost::encoding::{decode_key, skip_field} and unsigned_varint::decode::usize are trusted",
                "asynchronous_codec::Framed calls decode again while it returns Some (coalesced frames) and after more bytes arrived",
                "prost_codec::Codec::decode's own structure is checked under C57",
-               "the accepted idiom for bounding an incomplete frame is delegation to prost_codec::Codec::decode (announced length > max => Err before waiting)"]
+               "the accepted idiom for bounding an incomplete frame is delegation to prost_codec::Codec::decode (announced length > max => Err before waiting)",
+               "the tag dispatch is a multi-way switch on the decoded tag (an if/else-if chain would need another rule)"]
 G = "libp2p_gossipsub"
 CONFIGS = [{"name": "gossipsub-features", "packages": ["libp2p-gossipsub"], "features": "metrics,partial-messages"}]
 SELFTEST = [
     {"mutation": "size test moved back before consume_message_prefix (the original F6 defect)", "caught_by": "frame-size/size operand is the frame length (taken after consume_message_prefix succeeded)"},
-    {"mutation": "`publish_count > max_publish_messages` -> `>=`", "caught_by": "publish/error only when publish_count > max_publish_messages"},
-    {"mutation": "control arm `1 | 3` -> `3`", "caught_by": "walk/tag arms"},
-    {"mutation": "`control_size += field_size` -> `control_size = field_size`", "caught_by": "control/control_size accumulates the field sizes"},
-    {"mutation": "decode: validate_rpc_limits(.., self.max_control_message_size, self.max_publish_messages) swapped", "caught_by": "plumbing/decode passes the codec's limits in order"},
+    {"mutation": "`publish_count > max_publish_messages` -> `>=`", "caught_by": "publish/limit relation is count > max (max itself is accepted)"},
+    {"mutation": "control arm `1 | 3` -> `3`", "caught_by": "control/every field with tag 1 is accounted once"},
+    {"mutation": "`control_size += field_size` -> `control_size = field_size`", "caught_by": "control/accumulator starts at 0 and only ever adds the field size"},
+    {"mutation": "decode: validate_rpc_limits(.., self.max_control_message_size, self.max_publish_messages) swapped", "caught_by": "plumbing/decode: limit 3 of validate_rpc_limits is the configured max_publish_messages"},
     {"mutation": "decode: early `return Ok(None)` when validate_rpc_limits sees an incomplete frame (skipping the inner length guard)", "caught_by": "decode/need-more-bytes only after the inner length guard"},
-    {"mutation": "GossipsubCodec::new: Codec::new(max_control_message_size)", "caught_by": "plumbing/inner codec is built with global_max_transmit_size"},
-    {"mutation": "ConfigBuilder::max_control_message_size no longer updates protocol.max_control_message_size", "caught_by": "plumbing/ConfigBuilder::max_control_message_size sets protocol.max_control_message_size"},
-    {"mutation": "`message_length > max_message_size` -> `>=`", "caught_by": "frame-size/a frame of exactly max_message_size is accepted (relation is len > max)"},
-    {"mutation": "consume_message_prefix: `remaining.len() < message_length` -> `<=`", "caught_by": "prefix/complete only if remaining.len() >= message_length"},
+    {"mutation": "GossipsubCodec::new: Codec::new(max_control_message_size)", "caught_by": "plumbing/inner codec is built with the configured max_transmit_size"},
+    {"mutation": "ConfigBuilder::max_control_message_size no longer updates protocol.max_control_message_size", "caught_by": "plumbing/ConfigBuilder::max_control_message_size reaches the codec"},
+    {"mutation": "`message_length > max_message_size` -> `>=`", "caught_by": "frame-size/a frame of exactly max is accepted (relation is len > max)"},
+    {"mutation": "consume_message_prefix: `remaining.len() < message_length` -> `<=`", "caught_by": "prefix/incomplete only if remaining.len() < message_length (a frame that exactly fills the buffer is complete)"},
+    {"mutation": "neutral/gs/12 (reordered disjoint arms), 07 (mirrored comparisons)", "caught_by": "(silent, as required)"},
 ]
+LEN1 = r"^core::slice::len\(\$1\)$"
 
 
-def try_edges(b, site, label):
-    """Edges labelled `label` (Continue / Break) of the `?` applied directly to the call at `site`."""
-    out = set()
-    for bi in b.live:
-        info = b.switch_info(bi)
-        if not info:
-            continue
-        c = info[0]
-        if c[0] == "discr" and c[1][0] == "call" and re.search(r"Try>::branch$", mir.strip_generics(c[1][1])) and c[1][2] and c[1][2][0][0] == "call" and c[1][2][0][3] == site.bb:
-            for t, ls in info[1].items():
-                if ls == {label}:
-                    out.add((bi, t))
-    return out
+def classify_returns(cx):
+    ok, err = [], []
+    for s, e in cx.returns():
+        if e[0] == "agg" and e[3] == "Ok":
+            ok.append(s.bb)
+        else:
+            err.append(s.bb)
+    return ok, err
 
 
-def sw_on(b, pat):
+def may_edges(cx, pat, k):
+    """edges of the multi-way switch(es) on an int expression matching pat on which the value k is possible."""
     rx = re.compile(pat)
-    return [bi for bi in sorted(b.live) if b.switch_info(bi) and rx.search(render(b.switch_info(bi)[0]))]
+    out = set()
+    n = 0
+    for bi in sorted(cx.b.live):
+        sw = cx.switch(bi)
+        if not sw or not rx.search(render(sw[0])):
+            continue
+        labs = sw[1]
+        if not any(isinstance(l, int) for ls in labs.values() for l in ls):
+            continue
+        n += 1
+        explicit = {l for ls in labs.values() for l in ls if isinstance(l, int)}
+        for tgt, ls in labs.items():
+            if k in ls or (k not in explicit and "otherwise" in ls):
+                out.add((bi, tgt))
+    return out, n
+
+
+def field_param_map(cx, adt_pat):
+    """{field name: parameter index} for the single construction of an ADT in a constructor body (field := $i)."""
+    out = {}
+    ags = cx.b.agg_sites(adt_pat)
+    if len(ags) != 1:
+        return out, ags
+    for f, v in cx.site(ags[0])[4]:
+        if v[0] == "arg":
+            out[f] = v[1]
+    return out, ags
 
 
 def check(ctx):
     prog = ctx.prog
     v = ctx.body(G, r"^libp2p_gossipsub::protocol::validate_rpc_limits$")
     vw = "%s:%d" % (v.file, v.line)
-    # argument names (positions are what decode's call is checked against)
-    names = [v.names.get(i) for i in range(1, v.argc + 1)]
-    ctx.ob("frame-size", "floor:parameters", names == ["buf", "max_message_size", "max_publish_messages", "max_control_message_size"], vw, str(names), nontrivial=False)
+    cv = Canon(prog, v)
+    ctx.ob("frame-size", "floor:four parameters", v.argc == 4, vw, "argc=%d" % v.argc, nontrivial=False)
     pre = v.call_sites(r"prost_codec::consume_message_prefix$")
-    ctx.floor("frame-size", "consume_message_prefix call", pre, 1, exact=True)
     tagc = v.call_sites(r"prost_codec::decode_field_tag$")
     skip = v.call_sites(r"prost_codec::consume_message$")
+    ctx.floor("frame-size", "consume_message_prefix call", pre, 1, exact=True)
     ctx.floor("walk", "decode_field_tag call", tagc, 1, exact=True)
     ctx.floor("walk", "consume_message call", skip, 1, exact=True)
     if not (pre and tagc and skip):
         return
     for s in pre + tagc:
-        a = render(v.site_expr(s)[2][0])
-        ctx.ob("walk", "operates on buf", a == "buf", s.loc(), a)
-    a = [render(x) for x in v.site_expr(skip[0])[2]]
-    ctx.ob("walk", "field is skipped with the wire type and tag just decoded", len(a) == 3 and a[2] == "buf" and a[0].endswith("decode_field_tag(buf))@Continue.0.1") and a[1].endswith("decode_field_tag(buf))@Continue.0.0"), skip[0].loc(), str(a)[:200])
-    # complete-frame edge
-    comp = lib.switch_edges_on_site(v, pre[0], {"true"}, r"@Continue\.0$")
-    incomp = lib.switch_edges_on_site(v, pre[0], {"false"}, r"@Continue\.0$")
-    ctx.ob("frame-size", "floor:complete / incomplete edges", len(comp) == 1 and len(incomp) == 1, nontrivial=False, msg="%s %s" % (sorted(comp), sorted(incomp)))
-    # ---- the size test
-    sz = [bi for bi in sw_on(v, r"^(Gt|Ge|Lt|Le)\(") if "max_message_size" in render(v.switch_info(bi)[0])]
-    ctx.floor("frame-size", "comparison with max_message_size", sz, 1)
+        a = render(cv.args(s)[0])
+        ctx.ob("walk", "operates on buf", a == "$1", s.loc(), a)
+    TAGRES = r"prost_codec::decode_field_tag\(\$1\)@Ok\.0"
+    a = [render(x) for x in cv.args(skip[0])]
+    ctx.ob("walk", "field is skipped with the wire type and tag just decoded", len(a) == 3 and a[2] == "$1" and re.match("^%s\\.1$" % TAGRES, a[0]) is not None and re.match("^%s\\.0$" % TAGRES, a[1]) is not None, skip[0].loc(), str(a)[:200])
+    COMPLETE = r"^prost_codec::consume_message_prefix\(\$1\)@Ok\.0$"
+    comp = cv.edges(bool_pred(COMPLETE, True))
+    incomp = cv.edges(bool_pred(COMPLETE, False))
+    ctx.ob("frame-size", "floor:complete / incomplete edges", bool(comp) and bool(incomp), nontrivial=False, msg="%s %s" % (sorted(comp), sorted(incomp)))
+    ok_ret, err_ret = classify_returns(cv)
     rets = v.return_blocks()
-    ok_ret = []       # blocks assigning Ok to the return place
-    err_ret = []
-    for x in v.defs[0]:
-        if x[0] == "stmt":
-            r = render(v.rvalue_expr(x[3]))
-            (ok_ret if r.startswith("std::result::Result::Ok") else err_ret).append(x[1])
-        else:
-            err_ret.append(x[1])
-    for bi in sz:
-        cond, labs = v.switch_info(bi)
+    # ---- the size test: comparisons of something with parameter 2
+    sz = []
+    for bi in sorted(v.live):
+        sw = cv.switch(bi)
+        if not sw:
+            continue
+        cmp_, _ = lib_gs2._as_cmp(sw[0])
+        if cmp_ and "$2" in (render(cmp_[1]), render(cmp_[2])):
+            sz.append((bi, cmp_[1] if render(cmp_[2]) == "$2" else cmp_[2]))
+    ctx.floor("frame-size", "comparison with the size limit (parameter 2)", sz, 1)
+    over = cv.edges(rel_pred(LEN1, r"^\$2$", "Gt"))
+    within = cv.edges(rel_pred(LEN1, r"^\$2$", "Le"))
+    for bi, other in sz:
         loc = "%s:%d" % (v.file, v.blocks[bi]["term"].get("l", 0))
-        op, lhs, rhs = cond[1], cond[2], cond[3]
-        rl, rr = render(lhs), render(rhs)
-        if rr == "max_message_size":
-            norm, other = op, lhs
-        else:
-            norm, other = {"Gt": "Lt", "Lt": "Gt", "Ge": "Le", "Le": "Ge"}[op], rhs
-        ctx.ob("frame-size", "size operand is a length of buf", render(other) == "core::slice::len(buf)" and (rl == "max_message_size" or rr == "max_message_size"), loc, "%s(%s, %s)" % (op, rl, rr))
+        ctx.ob("frame-size", "size operand is a length of buf", re.match(LEN1, render(other)) is not None, loc, render(other)[:100])
         lens = [s[3] for s in mir.walk(other) if s[0] == "call"]
         ok = bool(lens) and bool(comp) and all(v.must_pass_edges(lb, comp) for lb in lens)
         ctx.ob("frame-size", "size operand is the frame length (taken after consume_message_prefix succeeded)", ok, loc,
                "buf.len() is read after the complete-frame edge of consume_message_prefix" if ok else
                "buf.len() is read on a path that has not consumed the length prefix: the limit is applied to the whole read buffer (prefix + any coalesced frames)")
-        walk_r = v.reachable(lib.bbs(tagc))
-        ctx.ob("frame-size", "size operand is read before the field walk shrinks buf", not (set(lens) & walk_r), loc, "len() not inside the field loop")
-        # exact relation: reject iff len > max
-        over = {"Gt": "true", "Le": "false"}.get(norm)
-        ctx.ob("frame-size", "a frame of exactly max_message_size is accepted (relation is len > max)", over is not None, loc, "relation %s" % norm)
-        if over is None:
-            continue
-        t_over = [t for t, ls in labs.items() if over in ls]
-        t_in = [t for t, ls in labs.items() if over not in ls]
-        r = v.reachable(t_over)
-        ctx.ob("frame-size", "over-limit frame => Err", not (set(ok_ret) & r) and bool(set(err_ret) & r), loc, "no Ok result reachable from the over-limit edge")
-        # the walk is only entered within the limit
-        ctx.ob("frame-size", "limits of the fields are only evaluated for an in-limit frame", v.must_pass_edges(tagc[0].bb, {(bi, t) for t in t_in}), tagc[0].loc(), "field walk dominated by the in-limit edge")
-    # incomplete frame: Ok, and no error verdict
+        ctx.ob("frame-size", "size operand is read before the field walk shrinks buf", not (set(lens) & v.reachable(lib.bbs(tagc))), loc, "len() not inside the field loop")
+    ctx.ob("frame-size", "a frame of exactly max is accepted (relation is len > max)", bool(over) and bool(within), vw, "over-limit edges %s, within-limit edges %s" % (sorted(over), sorted(within)))
+    for _, t in over:
+        r = v.reachable([t])
+        ctx.ob("frame-size", "over-limit frame => Err", not (set(ok_ret) & r) and bool(set(err_ret) & r), vw, "no Ok result reachable from the over-limit edge")
+    ctx.ob("frame-size", "limits of the fields are only evaluated for an in-limit frame", bool(within) and v.must_pass_edges(tagc[0].bb, within), tagc[0].loc(), "field walk dominated by len <= max")
     for _, t in incomp:
         r = v.reachable([t])
         ctx.ob("frame-size", "incomplete frame => no verdict (Ok) without touching the limits", bool(set(ok_ret) & r) and not (set(err_ret) & r) and tagc[0].bb not in r, vw, "from the incomplete edge only Ok is reachable")
-    # ---- `?` propagation
+    # ---- error propagation of the wire walk
     for s, nm in ((pre[0], "consume_message_prefix"), (tagc[0], "decode_field_tag"), (skip[0], "consume_message")):
-        br = try_edges(v, s, "Break")
-        ok = len(br) == 1
-        if ok:
-            t = list(br)[0][1]
-            r = v.reachable([t])
-            ok = not (set(ok_ret) & r) and any(re.search(r"from_residual$", mir.strip_generics(v.call_name(v.blocks[x]["term"]))) for x in r if v.blocks[x]["term"] and v.blocks[x]["term"]["k"] == "call")
-        ctx.ob("walk", "error of %s is propagated" % nm, ok, s.loc(), "Break edge returns the residual")
+        _, er = result_edges(cv, s.bb)
+        ok = bool(er)
+        for _, t in er:
+            r = v.reachable([t], stop_nodes=[s.bb])
+            ok = ok and not (set(ok_ret) & r) and bool(set(err_ret) & r) and s.bb not in r
+        ctx.ob("walk", "error of %s is propagated" % nm, ok, s.loc(), "the Err edge returns an error")
     # ---- success only when the frame is exhausted
-    emp = lib.switch_edges_on(v, r"^core::slice::is_empty\(buf\)$", {"true"})
-    ctx.ob("walk", "floor:loop exit test", len(emp) == 1, nontrivial=False, msg=str(sorted(emp)))
-    after_walk = [b for b in ok_ret if comp and v.must_pass_edges(b, comp)]
+    emp = cv.edges(rel_pred(LEN1, r"^0$", "Eq"))
+    ctx.ob("walk", "floor:loop exit test", bool(emp), nontrivial=False, msg=str(sorted(emp)))
+    after_walk = [b_ for b_ in ok_ret if comp and v.must_pass_edges(b_, comp)]
     ctx.floor("walk", "success result after the walk", after_walk, 1)
-    for b in after_walk:
-        ctx.ob("walk", "success only when every field of the frame was visited", bool(emp) and v.must_pass_edges(b, emp), "%s:%d" % (v.file, v.blocks[b]["stmts"][0].get("l", 0) if v.blocks[b]["stmts"] else v.line), "Ok dominated by buf.is_empty()")
-    # loop: every iteration decodes a tag then skips the field
+    for b_ in after_walk:
+        ctx.ob("walk", "success only when every field of the frame was visited", bool(emp) and v.must_pass_edges(b_, emp), vw, "Ok dominated by buf.is_empty()")
     lib.precedes(ctx, "walk", "tag decoded before the field is skipped", v, lib.bbs(tagc), lib.bbs(skip), "decode_field_tag precedes consume_message", tagc[0].loc())
+    head = sorted(emp)[0][0] if emp else None
+    back = [head] if head is not None else []
     # ---- tag dispatch
-    tsw = sw_on(v, r"decode_field_tag\(buf\)\)@Continue\.0\.0$")
-    ctx.floor("walk", "tag dispatch", tsw, 1, exact=True)
-    arms = {}
-    if tsw:
-        for t, ls in v.switch_info(tsw[0])[1].items():
-            arms[frozenset(ls)] = t
-        ctx.ob("walk", "tag arms", set(arms) == {frozenset({2}), frozenset({1, 3}), frozenset({"otherwise"})}, "%s:%d" % (v.file, v.blocks[tsw[0]]["term"].get("l", 0)),
-               "arms %s (expected publish=2, subscriptions/control=1|3, otherwise)" % sorted(map(sorted, [list(map(str, k)) for k in arms])))
-        lib.precedes(ctx, "walk", "field is consumed before it is classified", v, lib.bbs(skip), tsw, "consume_message precedes the tag match", skip[0].loc())
-    head = emp and list(emp)[0][0]
+    TAG = "^%s\\.0$" % TAGRES
+    m1, nsw = may_edges(cv, TAG, 1)
+    m2, _ = may_edges(cv, TAG, 2)
+    m3, _ = may_edges(cv, TAG, 3)
+    m_other, _ = may_edges(cv, TAG, 999983)
+    ctx.ob("walk", "floor:tag dispatch", nsw == 1, vw, "%d multi-way switch(es) on the decoded tag" % nsw, nontrivial=False)
+    for bi, _ in m2:
+        lib.precedes(ctx, "walk", "field is consumed before it is classified", v, lib.bbs(skip), [bi], "consume_message precedes the tag match", skip[0].loc())
+        break
+    only = lambda ks: cv.edges(lambda a: (a[0] == "int" and re.search(TAG, a[1]) and a[2] <= set(ks)) or (a[0] == "rel" and a[1] == "Eq" and re.search(TAG, a[2]) and a[3] in {str(k) for k in ks}))
     # ---- publish count
-    pc = lib.local_by_name(v, "publish_count")
-    defs = sorted(render(v.rvalue_expr(x[3])) for x in v.defs[pc] if x[0] == "stmt")
-    ctx.ob("publish", "publish_count starts at 0 and only ever +1", defs == ["0", "AddWithOverflow(publish_count, 1).0"], vw, str(defs))
-    inc = [mir.Site(v, x[1], x[2]) for x in v.defs[pc] if x[0] == "stmt" and "AddWithOverflow" in render(v.rvalue_expr(x[3]))]
-    perr = [s for s in v.call_sites(r"io::Error::new$|io::error::Error::new$") if "too many publish messages" in render(v.site_expr(s))]
-    ctx.floor("publish", "'too many publish messages' error", perr, 1, exact=True)
-    pa = arms.get(frozenset({2}))
-    if inc and pa is not None and head is not False:
-        back = [head] if head else []
-        got = lib.count_range(v, [pa], back + rets, lib.bbs(inc))
-        ctx.ob("publish", "every publish field is counted once", got == (1, 1), inc[0].loc(), "increments on the tag-2 arm per iteration: %s" % (got,))
-        ctx.ob("publish", "only publish fields are counted", all(v.must_pass_edges(s.bb, {(tsw[0], pa)}) for s in inc), inc[0].loc(), "increment dominated by tag == 2")
-        psw = [bi for bi in sw_on(v, r"^(Gt|Ge|Lt|Le|Eq|Ne)\(") if "publish_count" in render(v.switch_info(bi)[0])]
-        ctx.floor("publish", "publish_count comparison", psw, 1, exact=True)
-        for bi in psw:
-            ctx.ob("publish", "count is tested after the increment, in the same iteration", v.must_pass_nodes([pa], [bi], lib.bbs(inc)) and bi in v.reachable([pa], stop_nodes=back), "%s:%d" % (v.file, v.blocks[bi]["term"].get("l", 0)), "increment precedes test")
-            got = lib.count_range(v, [pa], back + rets, [bi])
-            ctx.ob("publish", "every counted publish field is tested against the limit", got == (1, 1), "%s:%d" % (v.file, v.blocks[bi]["term"].get("l", 0)), "tests per iteration: %s" % (got,))
-    for s in perr:
-        ctx.guarded("publish", "error only when publish_count > max_publish_messages", s,
-                    lambda c, r, l: (l == "true" and r == "Gt(publish_count, max_publish_messages)") or (l == "false" and r == "Le(publish_count, max_publish_messages)") or
-                                    (l == "true" and r == "Lt(max_publish_messages, publish_count)") or (l == "false" and r == "Ge(max_publish_messages, publish_count)"),
-                    "publish_count > max_publish_messages (max_publish_messages fields are accepted)")
-    over_p = lib.switch_edges_on(v, r"^Gt\(publish_count, max_publish_messages\)$", {"true"}) | lib.switch_edges_on(v, r"^Le\(publish_count, max_publish_messages\)$", {"false"})
-    for _, t in over_p:
-        r = v.reachable([t], stop_nodes=[head] if head else [])
-        ctx.ob("publish", "over the publish limit => Err", not (set(ok_ret) & r) and (not head or head not in r) and bool(set(lib.bbs(perr)) & r), vw, "the over-limit edge leaves the loop with the error")
+    pcs = lib_gs2.locals_compared_with(cv, r"^\$3$")
+    ctx.floor("publish", "counter compared with max_publish_messages (parameter 3)", pcs, 1, exact=True)
+    if pcs:
+        pc = pcs[0]
+        cp_ = Canon(prog, v, {pc: "pc"})
+        prof = lib_gs2.counter_profile(cv, pc)
+        ctx.ob("publish", "counter starts at 0 and only ever +1", prof == ["0", "AddWithOverflow(#, 1).0"], vw, str(prof))
+        inc = [s for s, r in cv.defs(pc) if "AddWithOverflow" in r]
+        over_p = cp_.edges(rel_pred(r"^pc$", r"^\$3$", "Gt"))
+        in_p = cp_.edges(rel_pred(r"^pc$", r"^\$3$", "Le"))
+        ctx.ob("publish", "limit relation is count > max (max itself is accepted)", bool(over_p) and bool(in_p), vw, "over %s within %s" % (sorted(over_p), sorted(in_p)))
+        if inc:
+            got = lib.count_range(v, [t for _, t in m2], back + rets, lib.bbs(inc)) if m2 else None
+            ctx.ob("publish", "every field with tag 2 is counted once", got == (1, 1), inc[0].loc(), "increments per tag-2 field: %s" % (got,))
+            ctx.ob("publish", "only fields with tag 2 are counted", all(cv.dominated(s.bb, only({2})) for s in inc), inc[0].loc(), "increment dominated by tag == 2")
+            tests = sorted({bi for bi, _ in over_p | in_p})
+            for bi in tests:
+                got = lib.count_range(v, [t for _, t in m2], back + rets, [bi]) if m2 else None
+                ctx.ob("publish", "every counted field is tested against the limit, after the increment", got == (1, 1) and v.must_pass_nodes([t for _, t in m2], [bi], lib.bbs(inc)), "%s:%d" % (v.file, v.blocks[bi]["term"].get("l", 0)), "tests per tag-2 field: %s" % (got,))
+        arm_err = [b_ for b_ in err_ret if b_ in v.reachable([t for _, t in m2], stop_nodes=back)]
+        ctx.floor("publish", "error raised in the tag-2 arm", arm_err, 1)
+        for b_ in arm_err:
+            ctx.ob("publish", "error only when count > max_publish_messages", bool(over_p) and v.must_pass_edges(b_, over_p), vw, "Err in the tag-2 arm dominated by count > max")
+        for _, t in over_p:
+            r = v.reachable([t], stop_nodes=back)
+            ctx.ob("publish", "over the publish limit => Err", not (set(ok_ret) & r) and (head is None or head not in r) and bool(set(err_ret) & r), vw, "the over-limit edge leaves the loop with the error")
     # ---- control size
-    cs = lib.local_by_name(v, "control_size")
-    cdefs = sorted(render(v.rvalue_expr(x[3])) for x in v.defs[cs] if x[0] == "stmt")
-    ctx.ob("control", "control_size accumulates the field sizes", len(cdefs) == 2 and cdefs[0] == "0" and re.match(r"^AddWithOverflow\(control_size, SubWithOverflow\(core::slice::len\(buf\), core::slice::len\(buf\)\)\.0\)\.0$", cdefs[1]) is not None, vw, str(cdefs)[:200])
-    cinc = [mir.Site(v, x[1], x[2]) for x in v.defs[cs] if x[0] == "stmt" and "AddWithOverflow" in render(v.rvalue_expr(x[3]))]
-    cerr = [s for s in v.call_sites(r"io::Error::new$|io::error::Error::new$") if "rpc control size exceeds" in render(v.site_expr(s))]
-    ctx.floor("control", "'rpc control size exceeds max control message size' error", cerr, 1, exact=True)
-    ca = arms.get(frozenset({1, 3}))
-    # field_size = field_start.len() - buf.len(): field_start is the snapshot taken before the tag was decoded, buf.len() is read after the skip
-    fs = [k for k, n in v.names.items() if n == "field_start"]
-    fdef = [x for l in fs for x in v.defs.get(l, [])]
-    ok = len(fdef) == 1 and fdef[0][0] == "stmt" and render(v.rvalue_expr(fdef[0][3])) == "buf"
-    ctx.ob("control", "field_start is a snapshot of buf", ok, vw, str([render(v.rvalue_expr(x[3])) for x in fdef if x[0] == "stmt"]))
-    if ok and cinc:
-        fsb = fdef[0][1]
-        # snapshot before decode_field_tag in the same iteration
-        ctx.ob("control", "snapshot is taken before the field's tag is decoded", fsb == tagc[0].bb or v.must_pass_nodes(v.succ[head] if head else [0], lib.bbs(tagc), [fsb]), "%s:%d" % (v.file, v.blocks[fsb]["stmts"][fdef[0][2]].get("l", 0)), "field_start = buf precedes decode_field_tag")
-        # the subtraction's operands: first = len(field_start), second = len(buf) evaluated after consume_message
-        st = cinc[0].stmt
-        e = v.rvalue_expr(st["r"])
-        subs = [x for x in mir.walk(e) if x[0] == "bin" and x[1] == "SubWithOverflow"]
-        if subs:
-            lcalls = [x for x in (subs[0][2], subs[0][3])]
-            def arg_local(call):
-                # which local does this len() call read?  look at the raw call terminator
-                t = v.blocks[call[3]]["term"]
-                a0 = t["args"][0]
-                l = a0["p"]["l"]
-                ds = v.defs.get(l, [])
-                if len(ds) == 1 and ds[0][0] == "stmt" and ds[0][3]["k"] in ("use", "ref", "copyderef"):
-                    inner = ds[0][3].get("o", {}).get("p") or ds[0][3].get("p")
-                    if inner:
-                        return v.names.get(inner["l"]) or inner["l"]
-                return v.names.get(l) or l
-            try:
-                n0, n1 = arg_local(lcalls[0]), arg_local(lcalls[1])
-            except Exception:
-                n0 = n1 = "?"
-            ctx.ob("control", "field_size = field_start.len() - buf.len()", (n0, n1) == ("field_start", "buf"), cinc[0].loc(), "operands (%s, %s)" % (n0, n1))
-            ctx.ob("control", "remaining length is read after the field was skipped", all(v.must_pass_nodes(v.succ[head] if head else [0], [c[3]], lib.bbs(skip)) for c in lcalls if c[0] == "call"), cinc[0].loc(), "len() after consume_message")
-    if cinc and ca is not None:
-        back = [head] if head else []
-        got = lib.count_range(v, [ca], back + rets, lib.bbs(cinc))
-        ctx.ob("control", "every subscription/control field is accounted once", got == (1, 1), cinc[0].loc(), "accumulations on the tag 1|3 arm per iteration: %s" % (got,))
-        ctx.ob("control", "only subscription/control fields are accounted", all(v.must_pass_edges(s.bb, {(tsw[0], ca)}) for s in cinc), cinc[0].loc(), "accumulation dominated by tag in {1,3}")
-        csw = [bi for bi in sw_on(v, r"^(Gt|Ge|Lt|Le|Eq|Ne)\(") if "control_size" in render(v.switch_info(bi)[0])]
-        ctx.floor("control", "control_size comparison", csw, 1, exact=True)
-        for bi in csw:
-            got = lib.count_range(v, [ca], back + rets, [bi])
-            ctx.ob("control", "every accounted field is tested against the limit", got == (1, 1) and v.must_pass_nodes([ca], [bi], lib.bbs(cinc)), "%s:%d" % (v.file, v.blocks[bi]["term"].get("l", 0)), "tests per iteration: %s, after the accumulation" % (got,))
-    for s in cerr:
-        ctx.guarded("control", "error only when control_size > max_control_message_size", s,
-                    lambda c, r, l: (l == "true" and r == "Gt(control_size, max_control_message_size)") or (l == "false" and r == "Le(control_size, max_control_message_size)") or
-                                    (l == "true" and r == "Lt(max_control_message_size, control_size)") or (l == "false" and r == "Ge(max_control_message_size, control_size)"),
-                    "control_size > max_control_message_size")
-    over_c = lib.switch_edges_on(v, r"^Gt\(control_size, max_control_message_size\)$", {"true"}) | lib.switch_edges_on(v, r"^Le\(control_size, max_control_message_size\)$", {"false"})
-    for _, t in over_c:
-        r = v.reachable([t], stop_nodes=[head] if head else [])
-        ctx.ob("control", "over the control limit => Err", not (set(ok_ret) & r) and (not head or head not in r) and bool(set(lib.bbs(cerr)) & r), vw, "the over-limit edge leaves the loop with the error")
-    # unknown tags never raise
-    oa = arms.get(frozenset({"otherwise"}))
-    if oa is not None and head:
-        r = v.reachable([oa], stop_nodes=[head])
-        ctx.ob("walk", "unknown fields are skipped without a verdict", head in r and not (set(err_ret) & r) and not (set(ok_ret) & r), vw, "otherwise arm continues the loop")
+    css = lib_gs2.locals_compared_with(cv, r"^\$4$")
+    ctx.floor("control", "accumulator compared with max_control_message_size (parameter 4)", css, 1, exact=True)
+    if css:
+        cs = css[0]
+        cc_ = Canon(prog, v, {cs: "cs"})
+        prof = lib_gs2.counter_profile(cv, cs)
+        ctx.ob("control", "accumulator starts at 0 and only ever adds the field size", len(prof) == 2 and prof[0] == "0" and re.match(r"^AddWithOverflow\((#, SubWithOverflow\(core::slice::len\(\$1\), core::slice::len\(\$1\)\)\.0|SubWithOverflow\(core::slice::len\(\$1\), core::slice::len\(\$1\)\)\.0, #)\)\.0$", prof[1]) is not None, vw, str(prof)[:200])
+        cinc = [s for s, r in cv.defs(cs) if "AddWithOverflow" in r]
+        over_c = cc_.edges(rel_pred(r"^cs$", r"^\$4$", "Gt"))
+        in_c = cc_.edges(rel_pred(r"^cs$", r"^\$4$", "Le"))
+        ctx.ob("control", "limit relation is size > max (max itself is accepted)", bool(over_c) and bool(in_c), vw, "over %s within %s" % (sorted(over_c), sorted(in_c)))
+        # operands of the subtraction: first = snapshot of buf taken before the tag was decoded, second = buf after the skip
+        if cinc:
+            e = v.rvalue_expr(cinc[0].stmt["r"])
+            subs = [x for x in mir.walk(e) if x[0] == "bin" and x[1] == "SubWithOverflow"]
+            okops, det = False, ""
+            if subs and subs[0][2][0] == "call" and subs[0][3][0] == "call":
+                def read_of_param(call):
+                    """block in which the value of parameter 1 that reaches this len() call is read (following copies)"""
+                    t = v.blocks[call[3]]["term"]
+                    l, at = t["args"][0]["p"]["l"], call[3]
+                    for _ in range(8):
+                        if 1 <= l <= v.argc:
+                            return l, at
+                        ds = v.defs.get(l, [])
+                        if len(ds) == 1 and ds[0][0] == "stmt" and ds[0][3]["k"] in ("use", "ref", "copyderef"):
+                            inner = (ds[0][3].get("o") or {}).get("p") or ds[0][3].get("p")
+                            if not inner:
+                                break
+                            l, at = inner["l"], ds[0][1]
+                        else:
+                            break
+                    return None, at
+                (p0, at0), (p1, at1) = read_of_param(subs[0][2]), read_of_param(subs[0][3])
+                hs = v.succ[head] if head is not None else [0]
+                before_tag = at0 == tagc[0].bb or (v.must_pass_nodes(hs, lib.bbs(tagc), [at0]) and at0 not in v.reachable(v.succ[tagc[0].bb], stop_nodes=back))
+                after_skip = at1 != skip[0].bb and v.must_pass_nodes(hs, [at1], lib.bbs(skip))
+                okops = p0 == 1 and p1 == 1 and before_tag and after_skip
+                det = "minuend reads buf before decode_field_tag: %s; subtrahend reads buf after consume_message: %s" % (before_tag, after_skip)
+            ctx.ob("control", "field_size = (buf before the field).len() - (buf after the field).len()", okops, cinc[0].loc(), det)
+            for k, mk in ((1, m1), (3, m3)):
+                got = lib.count_range(v, [t for _, t in mk], back + rets, lib.bbs(cinc)) if mk else None
+                ctx.ob("control", "every field with tag %d is accounted once" % k, got == (1, 1), cinc[0].loc(), "accumulations per tag-%d field: %s" % (k, got))
+            ctx.ob("control", "only fields with tag 1 or 3 are accounted", all(cv.dominated(s.bb, only({1, 3})) for s in cinc), cinc[0].loc(), "accumulation dominated by tag in {1,3}")
+            tests = sorted({bi for bi, _ in over_c | in_c})
+            m13 = [t for _, t in m1 | m3]
+            for bi in tests:
+                got = lib.count_range(v, m13, back + rets, [bi]) if m13 else None
+                ctx.ob("control", "every accounted field is tested against the limit, after the accumulation", got == (1, 1) and v.must_pass_nodes(m13, [bi], lib.bbs(cinc)), "%s:%d" % (v.file, v.blocks[bi]["term"].get("l", 0)), "tests per field: %s" % (got,))
+        arm_err = [b_ for b_ in err_ret if b_ in v.reachable([t for _, t in m1 | m3], stop_nodes=back)]
+        ctx.floor("control", "error raised in the tag-1|3 arm", arm_err, 1)
+        for b_ in arm_err:
+            ctx.ob("control", "error only when size > max_control_message_size", bool(over_c) and v.must_pass_edges(b_, over_c), vw, "Err in the tag-1|3 arm dominated by size > max")
+        for _, t in over_c:
+            r = v.reachable([t], stop_nodes=back)
+            ctx.ob("control", "over the control limit => Err", not (set(ok_ret) & r) and (head is None or head not in r) and bool(set(err_ret) & r), vw, "the over-limit edge leaves the loop with the error")
+    if head is not None:
+        for _, t in m_other:
+            r = v.reachable([t], stop_nodes=[head])
+            ctx.ob("walk", "unknown fields are skipped without a verdict", head in r and not (set(err_ret) & r) and not (set(ok_ret) & r), vw, "other tags continue the loop")
     # ---- consume_message_prefix (prost_codec)
     P = "prost_codec"
     cp = ctx.body(P, r"^prost_codec::consume_message_prefix$")
+    ccp = Canon(prog, cp)
     cpw = "%s:%d" % (cp.file, cp.line)
-    st_true = []
-    for x in cp.defs[0]:
-        if x[0] == "stmt" and render(cp.rvalue_expr(x[3])) == "std::result::Result::Ok{0: 1}":
-            st_true.append(mir.Site(cp, x[1], x[2]))
+    st_true = [s for s, e in ccp.returns() if render(e) == "std::result::Result::Ok{0: 1}"]
     ctx.floor("prefix", "consume_message_prefix Ok(true)", st_true, 1, exact=True)
-    LEN, REM = r"unsigned_varint::decode::usize\(buf\)@Ok\.0\.0", r"unsigned_varint::decode::usize\(buf\)@Ok\.0\.1"
+    LEN, REM = r"unsigned_varint::decode::usize\(\$1\)@Ok\.0\.0", r"unsigned_varint::decode::usize\(\$1\)@Ok\.0\.1"
+    enough = ccp.edges(rel_pred(r"^core::slice::len\(%s\)$" % REM, "^%s$" % LEN, "Ge"))
     for s in st_true:
-        ctx.guarded("prefix", "complete only if remaining.len() >= message_length", s,
-                    lambda c, r, l: (l == "false" and re.match(r"^Lt\(core::slice::len\(%s\), %s\)$" % (REM, LEN), r) is not None) or
-                                    (l == "true" and re.match(r"^Ge\(core::slice::len\(%s\), %s\)$" % (REM, LEN), r) is not None) or
-                                    (l == "false" and re.match(r"^Gt\(%s, core::slice::len\(%s\)\)$" % (LEN, REM), r) is not None) or
-                                    (l == "true" and re.match(r"^Le\(%s, core::slice::len\(%s\)\)$" % (LEN, REM), r) is not None), "remaining.len() >= message_length")
+        ctx.ob("prefix", "complete only if remaining.len() >= message_length", ccp.dominated(s.bb, enough), s.loc(), "Ok(true) dominated by remaining.len() >= message_length")
+    short = ccp.edges(rel_pred(r"^core::slice::len\(%s\)$" % REM, "^%s$" % LEN, "Lt"))
+    varint_ok = ccp.edges(var_pred(r"^unsigned_varint::decode::usize\(\$1\)$", {"Ok"}))
+    st_false = [s for s, e in ccp.returns() if render(e) == "std::result::Result::Ok{0: 0}" and varint_ok and cp.must_pass_edges(s.bb, varint_ok)]
+    ctx.floor("prefix", "`incomplete` result after the length was decoded", st_false, 1)
+    for s in st_false:
+        ctx.ob("prefix", "incomplete only if remaining.len() < message_length (a frame that exactly fills the buffer is complete)", ccp.dominated(s.bb, short), s.loc(), "Ok(false) dominated by remaining.len() < message_length")
     wr = [x for x in cp.defs.get((1, "partial"), []) if x[0] == "stmt"]
     ctx.floor("prefix", "*buf = ..", wr, 1, exact=True)
     for x in wr:
-        r = render(cp.rvalue_expr(x[3]))
+        r = ccp.r(cp.rvalue_expr(x[3]))
         site = mir.Site(cp, x[1], x[2])
         ctx.ob("prefix", "buffer is narrowed to exactly one frame: remaining[..message_length]",
                re.match(r"^core::slice::index::index\(%s, std::ops::RangeTo::RangeTo\{end: %s\}\)$" % (REM, LEN), r) is not None, site.loc(), r[:200])
         if st_true:
             ctx.ob("prefix", "Ok(true) implies the buffer was narrowed", cp.must_pass_nodes([0], lib.bbs(st_true), [x[1]]), site.loc(), "*buf assigned on every path to Ok(true)")
-    ins = lib.switch_edges_on(cp, r"^discr\(unsigned_varint::decode::usize\(buf\)@Err\.0\)$", {"Insufficient"})
+    ins = ccp.edges(var_pred(r"^unsigned_varint::decode::usize\(\$1\)@Err\.0$", {"Insufficient"}))
     for _, t in ins:
         r = cp.reachable([t])
-        vals = {render(cp.rvalue_expr(x[3])) for x in cp.defs[0] if x[0] == "stmt" and x[1] in r}
+        vals = {render(e) for s, e in ccp.returns() if s.bb in r}
         ctx.ob("prefix", "an incomplete length prefix is `not yet`, not an error", vals == {"std::result::Result::Ok{0: 0}"}, cpw, str(sorted(vals)))
-    ctx.ob("prefix", "floor:Insufficient arm", len(ins) == 1, nontrivial=False, msg=str(sorted(ins)))
+    ctx.ob("prefix", "floor:Insufficient arm", bool(ins), nontrivial=False, msg=str(sorted(ins)))
+    # ---- GossipsubCodec::new: field <- parameter map
+    n = ctx.body(G, r"^libp2p_gossipsub::protocol::GossipsubCodec::new$")
+    cn = Canon(prog, n)
+    fmap, ag = field_param_map(cn, r"protocol::GossipsubCodec$")
+    ctx.floor("plumbing", "GossipsubCodec construction", ag, 1, exact=True)
+    codec_fields = {}
+    if ag:
+        for f, e in cn.site(ag[0])[4]:
+            if e[0] == "call" and re.search(r"prost_codec::Codec::new$", strip_generics(e[1])) and e[2] and e[2][0][0] == "arg":
+                codec_fields[f] = e[2][0][1]
+    agall = [s for b in prog.bodies(G) for s in b.agg_sites(r"protocol::GossipsubCodec$")]
+    ctx.ob("plumbing", "GossipsubCodec is only built by GossipsubCodec::new", len(agall) == 1, msg="%d construction site(s)" % len(agall))
+    # ---- the public configuration names -> ProtocolConfig fields (setters) -> GossipsubCodec::new positions (upgrades)
+    setters = {}
+    for setter in ("max_transmit_size", "max_publish_messages", "max_control_message_size"):
+        b = ctx.body(G, r"config::ConfigBuilder::%s$" % setter)
+        cb_ = Canon(prog, b)
+        flds = []
+        for f in {pr["n"] for bi in b.live for st in b.blocks[bi]["stmts"] if st["k"] == "assign" for pr in st["p"].get("pr", ()) if pr["k"] == "field"}:
+            for s in b.field_write_sites(f, r"protocol::ProtocolConfig"):
+                if s.si is not None and render(cb_.site(s)) == "$2":
+                    flds.append(f)
+        setters[setter] = sorted(set(flds))
+    pos_of = {}
+    ups = []
+    for fn in ("InboundUpgrade>::upgrade_inbound", "OutboundUpgrade>::upgrade_outbound"):
+        u = ctx.body(G, r"protocol::ProtocolConfig as libp2p_core::%s$" % fn)
+        cu = Canon(prog, u)
+        cs_ = u.call_sites(r"protocol::GossipsubCodec::new$")
+        ctx.floor("plumbing", "%s builds the codec" % fn.split("::")[-1], cs_, 1, exact=True)
+        for s in cs_:
+            m = {}
+            for i, a_ in enumerate(cu.args(s)):
+                mm = re.match(r"^\$1\.(\w+)$", render(a_))
+                if mm:
+                    m[mm.group(1)] = i + 1
+            ups.append((fn.split("::")[-1], s, m))
+    newc = prog.callers(G, r"protocol::GossipsubCodec::new$")
+    ctx.ob("plumbing", "codec constructors are the two upgrades", sorted(s.body.npath.split("::")[-1] for s in newc) == ["upgrade_inbound", "upgrade_outbound"], msg=str(sorted(s.body.npath for s in newc)))
+    # parameter position of GossipsubCodec::new reached by each public setting, must agree on both upgrades
+    for setter, flds in setters.items():
+        poss = set()
+        for nm, s, m in ups:
+            poss.add(tuple(sorted(m[f] for f in flds if f in m)))
+        ok = len(flds) == 1 and len(poss) == 1 and len(next(iter(poss))) == 1
+        pos_of[setter] = next(iter(poss))[0] if ok else None
+        ctx.ob("plumbing", "ConfigBuilder::%s reaches the codec" % setter, ok, msg="ProtocolConfig field(s) %s -> GossipsubCodec::new parameter %s on both upgrades" % (flds, sorted(poss)))
+    pc_ = ctx.body(G, r"config::Config::protocol_config$")
+    r0 = [render(e) for _, e in Canon(prog, pc_).returns()]
+    ctx.ob("plumbing", "the handler's ProtocolConfig is the validated Config's", len(r0) == 1 and re.match(r"^\$1\.\w+$", r0[0]) is not None, "%s:%d" % (pc_.file, pc_.line), str(r0)[:160])
     # ---- GossipsubCodec::decode
     d = ctx.body(G, r"protocol::GossipsubCodec as asynchronous_codec::Decoder>::decode$")
+    cd = Canon(prog, d)
     dw = "%s:%d" % (d.file, d.line)
     vc = d.call_sites(r"protocol::validate_rpc_limits$")
     ic = d.call_sites(r"prost_codec::Codec as asynchronous_codec::Decoder>::decode$")
@@ -288,20 +350,35 @@ def check(ctx):
     ctx.ob("decode", "validate_rpc_limits has exactly this caller", [s.body.npath for s in allv] == [d.npath], dw, str([s.body.npath for s in allv]))
     if vc and ic:
         lib.precedes(ctx, "decode", "limits are validated before the RPC is decoded (allocated)", d, lib.bbs(vc), lib.bbs(ic), "validate_rpc_limits precedes Codec::decode", vc[0].loc())
-        a = [render(x) for x in d.site_expr(vc[0])[2]]
-        ctx.ob("plumbing", "decode validates the read buffer", len(a) == 4 and re.match(r"^(<&mut T as std::convert::AsRef>::as_ref|<asynchronous_codec::BytesMut as std::ops::Deref>::deref|<asynchronous_codec::BytesMut as std::convert::AsRef>::as_ref)\(src\)$", a[0]) is not None, vc[0].loc(), a[0][:120])
-        ctx.ob("plumbing", "decode passes the codec's limits in order", a[1:] == ["self.global_max_transmit_size", "self.max_publish_messages", "self.max_control_message_size"], vc[0].loc(), str(a[1:]))
-        ia = [render(x) for x in d.site_expr(ic[0])[2]]
-        ctx.ob("plumbing", "the buffer validated is the buffer decoded", ia == ["self.codec", "src"], ic[0].loc(), str(ia))
-        br = try_edges(d, vc[0], "Break")
-        for _, t in br:
+        a = cd.args(vc[0])
+        ctx.ob("plumbing", "decode validates the read buffer", len(a) == 4 and render(a[0]) == "$2", vc[0].loc(), render(a[0])[:120] if a else "")
+        for k, setter in ((1, "max_transmit_size"), (2, "max_publish_messages"), (3, "max_control_message_size")):
+            mm = re.match(r"^\$1\.(\w+)$", render(a[k])) if len(a) == 4 else None
+            got = fmap.get(mm.group(1)) if mm else None
+            ctx.ob("plumbing", "decode: limit %d of validate_rpc_limits is the configured %s" % (k + 1, setter), got is not None and got == pos_of.get(setter), vc[0].loc(),
+                   "argument %s = constructor parameter %s; %s arrives at parameter %s" % (render(a[k])[:60] if len(a) == 4 else "?", got, setter, pos_of.get(setter)))
+        ia = cd.args(ic[0])
+        mm = re.match(r"^\$1\.(\w+)$", render(ia[0])) if ia else None
+        ctx.ob("plumbing", "the buffer validated is the buffer decoded", len(ia) == 2 and render(ia[1]) == "$2" and mm is not None, ic[0].loc(), str([render(x) for x in ia]))
+        ctx.ob("plumbing", "inner codec is built with the configured max_transmit_size", mm is not None and codec_fields.get(mm.group(1)) is not None and codec_fields.get(mm.group(1)) == pos_of.get("max_transmit_size"), ic[0].loc(),
+               "codec field built from constructor parameter %s; max_transmit_size arrives at parameter %s" % (codec_fields.get(mm.group(1)) if mm else None, pos_of.get("max_transmit_size")))
+        _, er = result_edges(cd, vc[0].bb)
+        ok_d, err_d = classify_returns(cd)
+        for _, t in er:
             r = d.reachable([t])
-            ctx.ob("decode", "a limit violation fails the decode", ic[0].bb not in r and any(re.search(r"from_residual$", mir.strip_generics(d.call_name(d.blocks[x]["term"]))) for x in r if d.blocks[x]["term"] and d.blocks[x]["term"]["k"] == "call"), vc[0].loc(), "Break edge returns the error without decoding")
-        ctx.ob("decode", "floor:limit violation edge", len(br) == 1, nontrivial=False, msg=str(sorted(br)))
-        # Ok(None) only after the inner decoder (and its announced-length guard) was consulted
-        none_ret = [mir.Site(d, x[1], x[2]) for x in d.defs[0] if x[0] == "stmt" and render(d.rvalue_expr(x[3])) == "std::result::Result::Ok{0: std::option::Option::None{}}"]
+            ctx.ob("decode", "a limit violation fails the decode", ic[0].bb not in r and not (set(ok_d) & r) and bool(set(err_d) & r), vc[0].loc(), "the Err edge returns the error without decoding")
+        ctx.ob("decode", "floor:limit violation edge", bool(er), nontrivial=False, msg=str(sorted(er)))
+        none_ret = [s for s, e in cd.returns() if render(e) == "std::result::Result::Ok{0: std::option::Option::None{}}"]
         ctx.floor("decode", "`need more bytes` result", none_ret, 1)
-        none_edges = lib.switch_edges_on_site(d, ic[0], {"None"}, r"^discr\(")
+        none_edges = set()
+        for bi, tgt, at in cd.atoms():
+            if at[0] == "var" and at[2] <= {"None"}:
+                sw = cd.switch(bi)
+                inner = sw[0][1] if sw[0][0] == "discr" else None
+                while inner is not None and inner[0] in ("downcast", "field"):
+                    inner = inner[1]
+                if inner is not None and inner[0] == "call" and inner[3] == ic[0].bb:
+                    none_edges.add((bi, tgt))
         for s in none_ret:
             ok = bool(none_edges) and d.must_pass_edges(s.bb, none_edges)
             ctx.ob("decode", "need-more-bytes only after the inner length guard", ok, s.loc(),
@@ -309,55 +386,44 @@ def check(ctx):
                    "a path returns Ok(None) without consulting prost_codec::Codec::decode: a frame announcing more than the maximum keeps being buffered instead of being rejected")
     # inner guard present in prost_codec (reference; structure is C57's)
     pd = ctx.body(P, r"Codec as asynchronous_codec::Decoder>::decode$")
-    g = [bi for bi in sw_on(pd, r"^Gt\(unsigned_varint::decode::usize\(.*\)@Ok\.0\.0, self\.max_message_len_bytes\)$")]
-    ctx.ob("decode", "inner decoder rejects announced length > max_message_len_bytes", len(g) == 1, "%s:%d" % (pd.file, pd.line), "%d guard(s)" % len(g))
-    for bi in g:
-        t_over = [t for t, ls in pd.switch_info(bi)[1].items() if "true" in ls]
-        r = pd.reachable(t_over)
-        vals = {render(pd.rvalue_expr(x[3]))[:30] for x in pd.defs[0] if x[0] == "stmt" and x[1] in r}
-        ctx.ob("decode", "inner over-limit edge => Err", vals == {"std::result::Result::Err{0: pr"}, "%s:%d" % (pd.file, pd.blocks[bi]["term"].get("l", 0)), str(sorted(vals)))
-    # ---- plumbing of the limits
-    n = ctx.body(G, r"^libp2p_gossipsub::protocol::GossipsubCodec::new$")
-    nn = [n.names.get(i) for i in range(1, n.argc + 1)]
-    ctx.ob("plumbing", "floor:GossipsubCodec::new parameters", nn == ["global_max_transmit_size", "validation_mode", "max_transmit_sizes", "max_publish_messages", "max_control_message_size"], "%s:%d" % (n.file, n.line), str(nn), nontrivial=False)
-    ag = n.agg_sites(r"protocol::GossipsubCodec$")
-    ctx.floor("plumbing", "GossipsubCodec construction", ag, 1, exact=True)
-    for s in ag:
-        f = dict((k, render(x)) for k, x in n.site_expr(s)[4])
-        ctx.ob("plumbing", "GossipsubCodec::new stores each limit in its own field",
-               all(f.get(k) == k for k in ("global_max_transmit_size", "max_publish_messages", "max_control_message_size", "max_transmit_sizes", "validation_mode")), s.loc(), str({k: f.get(k) for k in f if k != "codec"})[:300])
-        ctx.ob("plumbing", "inner codec is built with global_max_transmit_size", f.get("codec") == "prost_codec::Codec::new(global_max_transmit_size)", s.loc(), str(f.get("codec")))
-    agall = [s for b in prog.bodies(G) for s in b.agg_sites(r"protocol::GossipsubCodec$")]
-    ctx.ob("plumbing", "GossipsubCodec is only built by GossipsubCodec::new", len(agall) == 1, msg="%d construction site(s)" % len(agall))
-    for fn in ("InboundUpgrade>::upgrade_inbound", "OutboundUpgrade>::upgrade_outbound"):
-        u = ctx.body(G, r"protocol::ProtocolConfig as libp2p_core::%s$" % fn)
-        cs_ = u.call_sites(r"protocol::GossipsubCodec::new$")
-        ctx.floor("plumbing", "%s builds the codec" % fn.split("::")[-1], cs_, 1, exact=True)
-        for s in cs_:
-            a = [render(x) for x in u.site_expr(s)[2]]
-            ctx.ob("plumbing", "%s passes the configured limits in order" % fn.split("::")[-1],
-                   a == ["self.default_max_transmit_size", "self.validation_mode", "self.max_transmit_sizes", "self.max_publish_messages", "self.max_control_message_size"], s.loc(), str(a))
-    newc = prog.callers(G, r"protocol::GossipsubCodec::new$")
-    ctx.ob("plumbing", "codec constructors are the two upgrades", sorted(s.body.npath.split("::")[-1] for s in newc) == ["upgrade_inbound", "upgrade_outbound"], msg=str(sorted(s.body.npath for s in newc)))
-    pc_ = ctx.body(G, r"config::Config::protocol_config$")
-    r0 = [render(pc_.call_expr(x[3], x[1])) if x[0] == "call" else render(pc_.rvalue_expr(x[3])) for x in pc_.defs[0]]
-    ctx.ob("plumbing", "the handler's ProtocolConfig is the validated Config's", len(r0) == 1 and r0[0].endswith("clone(self.protocol)"), "%s:%d" % (pc_.file, pc_.line), str(r0)[:160])
-    for setter, fld, par in (("max_transmit_size", "default_max_transmit_size", "max_transmit_size"), ("max_publish_messages", "max_publish_messages", "max"), ("max_control_message_size", "max_control_message_size", "size")):
-        b = ctx.body(G, r"config::ConfigBuilder::%s$" % setter)
-        ws = [s for s in b.field_write_sites(fld) if any(pr["k"] == "field" and pr["n"] == "protocol" for pr in (s.stmt["p"].get("pr", ()) if s.si is not None else ()))]
-        ok = len(ws) == 1 and render(b.site_expr(ws[0])) == par
-        ctx.ob("plumbing", "ConfigBuilder::%s sets protocol.%s" % (setter, fld), ok, "%s:%d" % (b.file, b.line), str([render(b.site_expr(s)) for s in ws]))
+    cpd = Canon(prog, pd)
+    pn = ctx.body(P, r"^prost_codec::Codec::new$")
+    pmap, pag = field_param_map(Canon(prog, pn), r"prost_codec::Codec$")
+    maxf = [f for f, i in pmap.items() if i == 1]
+    ctx.ob("decode", "floor:prost_codec::Codec::new stores its limit", len(maxf) == 1, msg=str(pmap), nontrivial=False)
+    if maxf:
+        og = cpd.edges(rel_pred(r"^unsigned_varint::decode::usize\(.*\)@Ok\.0\.0$", r"^\$1\.%s$" % maxf[0], "Gt"))
+        ctx.ob("decode", "inner decoder rejects announced length > its limit", bool(og), "%s:%d" % (pd.file, pd.line), "%d over-limit edge(s)" % len(og))
+        okp, errp = classify_returns(cpd)
+        for _, t in og:
+            r = pd.reachable([t])
+            ctx.ob("decode", "inner over-limit edge => Err", not (set(okp) & r) and bool(set(errp) & r), "%s:%d" % (pd.file, pd.line), "no Ok reachable")
     # ---- per-topic limit
-    pushes = [s for s in d.call_sites(r"Vec::push$") if render(d.site_expr(s)[2][0]) == "messages"]
-    ctx.floor("topic-limit", "messages.push", pushes, 1, exact=True)
-    BIG = r"^std::option::Option::is_some_and\(libp2p_gossipsub::protocol::GossipsubCodec::max_transmit_size_for_topic\(self, libp2p_gossipsub::topic::TopicHash::from_raw\(.*@Some\.0\.topic\)\), closure:"
+    roles = {}
+    for s, e in cd.returns():
+        for a_ in mir.walk(e):
+            if a_[0] == "agg" and a_[1] == "adt" and re.search(r"types::RpcIn$", strip_generics(a_[2])):
+                for f, v_ in a_[4]:
+                    if f == "messages" and v_[0] == "local":
+                        roles[v_[1]] = "messages"
+    cdr = Canon(prog, d, roles)
+    pushes = [s for s in d.call_sites(r"Vec::push$") if render(cdr.args(s)[0]) == "messages"]
+    ctx.floor("topic-limit", "push into RpcIn.messages", pushes, 1, exact=True)
+    BIG = r"^std::option::Option::is_some_and\(libp2p_gossipsub::protocol::GossipsubCodec::max_transmit_size_for_topic\(\$1, libp2p_gossipsub::topic::TopicHash::from_raw\((.*)@Some\.0\.topic\)\), closure:"
     for s in pushes:
-        ctx.guarded("topic-limit", "valid only if not larger than the topic's max_transmit_size", s, lambda c, r, l: l == "false" and re.match(BIG, r) is not None, "!max_transmit_size_for_topic(topic).is_some_and(|max| encoded_len > max)")
-    for bi in sw_on(d, BIG):
-        cl = lib.closure_of(prog, d, d.switch_info(bi)[0])
-        r0 = [render(cl.site_expr(mir.Site(cl, x[1], x[2]))) for x in cl.defs[0]] if cl else []
-        ctx.ob("topic-limit", "message of exactly the topic's maximum is accepted (encoded_len > max)", len(r0) == 1 and re.match(r"^Gt\(.*encoded_len\(\^message\), max\)$", r0[0]) is not None, cl and "%s:%d" % (cl.file, cl.line) or dw, str(r0)[:160])
-        ctx.ob("topic-limit", "the measured message is the loop's message", cl is not None and any(re.search(r"next\(iter\)@Some\.0$", render(x)) for x in mir.walk(d.switch_info(bi)[0]) if x[0] != "call"), dw, "closure captures the message being classified")
+        ctx.ob("topic-limit", "valid only if not larger than the topic's max_transmit_size", cdr.dominated(s.bb, cdr.edges(bool_pred(BIG, False))), s.loc(), "!max_transmit_size_for_topic(topic).is_some_and(|max| encoded_len > max)")
+    for bi in sorted(d.live):
+        sw = cdr.switch(bi)
+        if not sw:
+            continue
+        mm = re.match(BIG, render(sw[0]))
+        if not mm:
+            continue
+        elem = mm.group(1) + "@Some.0"
+        for cl in cdr.closures_in(d.switch_info(bi)[0]):
+            rets_ = cl.returns()
+            ok = len(rets_) == 1 and any(rel_pred(r"encoded_len\(%s\)$" % re.escape(elem), r"^c\$2$", "Gt")(a_) for a_ in lib_gs2.atoms_of(rets_[0][1], {"true"}))
+            ctx.ob("topic-limit", "message of exactly the topic's maximum is accepted (encoded_len(message) > max)", ok, "%s:%d" % (cl.b.file, cl.b.line), str([render(e) for _, e in rets_])[:200])
     mt = ctx.body(G, r"protocol::GossipsubCodec::max_transmit_size_for_topic$")
-    r0 = [render(mt.call_expr(x[3], x[1])) if x[0] == "call" else render(mt.rvalue_expr(x[3])) for x in mt.defs[0]]
-    ctx.ob("topic-limit", "topic limit is looked up in max_transmit_sizes by topic", r0 == ["std::option::Option::copied(std::collections::HashMap::get(self.max_transmit_sizes, topic))"], "%s:%d" % (mt.file, mt.line), str(r0))
+    r0 = [render(e) for _, e in Canon(prog, mt).returns()]
+    ctx.ob("topic-limit", "topic limit is looked up by topic in the per-topic table", len(r0) == 1 and re.match(r"^std::collections::HashMap::get\(\$1\.\w+, \$2\)$", r0[0]) is not None, "%s:%d" % (mt.file, mt.line), str(r0))
